@@ -1,7 +1,7 @@
 """Developer probe: run N random specs and print clause counts (not part of the registered checks)."""
 import collections, json, sys, os
 from pathlib import Path
-sys.path.insert(0, '/verif')
+sys.path.insert(0, "/verif")
 from harness.corpus import gen_specs, run_specs
 from harness.tracecheck import validate
 n = int(sys.argv[1]); seed = int(sys.argv[2]) if len(sys.argv) > 2 else 1
